@@ -155,7 +155,7 @@ theorem second_hp {g : FCfg} (ok : g.OKu) (fuel : Nat) (r : AReq) (sub : HSub) (
 /-- the connection task's step on the result of the second `readAll` -/
 theorem r2_finish {g : FCfg} {c : Conn} {r : AReq} {h : HState} (hph : c.phase = .handler r h)
     {r' : AReq} {h' : HState} {e' : Run.Env}
-    (hhp : handlerPoll (handlerFuel c.env r) r h c.env = (r', h', e'.ev (reEvent g.K2.C), .done (.error .unexpectedEof))) :
+    (hhp : handlerPoll ((handlerFuel c.env r + scriptOf c)) r h c.env = (r', h', e'.ev (reEvent g.K2.C), .done (.error .unexpectedEof))) :
     stepConn c = .halt ⟨.finished, (e'.ev (reEvent g.K2.C)).ev heEvent, c.scripts, c.stop⟩ .finished := by
   have hstep := C07.handler_step c r h hph
   rw [hhp] at hstep
@@ -185,7 +185,7 @@ theorem r2_poll {g : FCfg} (ok : g.OKu) {c : Conn} {r : AReq} {sub : HSub} {dO :
   obtain ⟨G0, hi0⟩ := hs.inv
   have hcapr := hi0.capK
   have hc2 : g.K2.cap = g.cap := ok.fol.cap.trans ok.capK
-  rcases second_hp ok (handlerFuel c.env r) r sub c.env dO hs hb hem (by omega) with
+  rcases second_hp ok ((handlerFuel c.env r + scriptOf c)) r sub c.env dO hs hb hem (by omega) with
     ⟨r', acc', e', dO', d1, d3, d5, d6, d8, d9⟩ | ⟨r', e', d1, d3, d4, d8, d9⟩
   · have hstep := C07.handler_step c r _ hph
     rw [d1] at hstep
@@ -210,11 +210,11 @@ theorem r1_poll {g : FCfg} (ok : g.OKu) {c : Conn} {r : AReq} {sub : HSub} {dO :
   have hrl := hi0.rem_le ok.k1
   have hc1 := ok.capK
   rcases readAll_run ok.k1 (L := g.L1) (P := []) (.setStream 8 :: .readAll :: g.rest2) [] true
-      (2 * ((g.K1.C.length - (accOf sub).length) / 64) + 2 * c.env.tr.input.length + 2) (handlerFuel c.env r)
+      (2 * ((g.K1.C.length - (accOf sub).length) / 64) + 2 * c.env.tr.input.length + 2) ((handlerFuel c.env r + scriptOf c))
       r sub c.env dO 1 (by omega) (by omega) (fun h => by omega) hb hs with
     ⟨r', acc', e', dO', d1, d3, d5, d6, d8, d9⟩ |
     ⟨r', e', f', d1, d2, d3, dl, dm, d4, d5, d6, dw, d8, d9⟩
-  · have d1' : handlerPoll (handlerFuel c.env r) r (fH1 g sub) c.env =
+  · have d1' : handlerPoll ((handlerFuel c.env r + scriptOf c)) r (fH1 g sub) c.env =
         (r', fH1 g (.readAllAcc acc'), e', .pending) := d1
     rw [d1'] at hstep
     have hstep' : stepConn c = .halt ⟨.handler r' (fH1 g (.readAllAcc acc')), e', c.scripts, c.stop⟩ .pending := hstep
@@ -232,9 +232,9 @@ theorem r1_poll {g : FCfg} (ok : g.OKu) {c : Conn} {r : AReq} {sub : HSub} {dO :
       have : RSt g.K2 g.L1 ([] ++ g.K1.O) r2 e'.mutex e'.tr [] [] := hs2
       rw [List.nil_append] at this
       exact ⟨this.inv, this.lk, this.mx, this.log⟩
-    have heq : handlerPoll (handlerFuel c.env r) r (fH1 g sub) c.env =
+    have heq : handlerPoll ((handlerFuel c.env r + scriptOf c)) r (fH1 g sub) c.env =
         handlerPoll f2 r2 (fH2 g .fresh) ((e'.ev (rEvent g.K1.C)).ev "s=ok") := by
-      have d1' : handlerPoll (handlerFuel c.env r) r (fH1 g sub) c.env =
+      have d1' : handlerPoll ((handlerFuel c.env r + scriptOf c)) r (fH1 g sub) c.env =
           handlerPoll (f2 + 1) r' { ops := .setStream 8 :: .readAll :: g.rest2, sub := .fresh, writers := [], propagate := true }
             (e'.ev (rEvent g.K1.C)) := d1
       rw [d1', hp_setStream, hset]
